@@ -253,13 +253,31 @@ RawNode Imperative(RawNode imp, RawNode value, RawNode actions, RawNode rc) {
 }
 
 bool SemanticCheck(ParserState* state, RawNode root) {
+  static constexpr size_t MAX_DEPTH = 2000; // deeper trees are refused: tree construction and every later pass are recursive
   std::vector<Node*> stack{ root.get() };
   std::vector<Node*> parents{ nullptr };
+  std::vector<size_t> depths{ 1 };
   while (!stack.empty()) {
     auto *const node = stack.back();
     stack.pop_back();
     auto *const parent = parents.back();
     parents.pop_back();
+    const auto depth = depths.back();
+    depths.pop_back();
+    if (depth > MAX_DEPTH) {
+      state->OnError(ParseEID::syntax, node->token.pos.start);
+      // release the refused tree level by level: the destructors of a chain of nodes are recursive as well
+      std::vector<RawNode> pending{ std::move(root) };
+      while (!pending.empty()) {
+        auto current = std::move(pending.back());
+        pending.pop_back();
+        for (auto& child : current->children) {
+          pending.emplace_back(std::move(child));
+        }
+        current->children.clear();
+      }
+      return false;
+    }
 
     const auto id = node->token.id;
     if (id == TokenID::ASSIGN || id == TokenID::ITERATE) {
@@ -271,6 +289,7 @@ bool SemanticCheck(ParserState* state, RawNode root) {
     for (const auto& child: node->children) {
       stack.emplace_back(child.get());
       parents.emplace_back(node);
+      depths.emplace_back(depth + 1);
     }
   }
   return true;
